@@ -189,6 +189,9 @@ func hostileInit() {
 					{"absent", nil, false}, {"empty", []byte{}, true}, {"exact-zero", make([]byte, exact), true},
 					{"longer", append([]byte{0x01}, make([]byte, exact)...), true}, {"shorter", ones[:exact-1], true},
 					{"all-ones", ones, true}, {"low3", []byte{0x07}, true},
+					// longer than the fanout only through leading zero bytes (a
+					// left-padded big-endian bitfield), with and without bits set
+					{"zero-padded", append([]byte{0x00, 0x00}, ones...), true}, {"zero-padded-low", append(make([]byte, exact+1), 0x01), true},
 				}
 				for _, bf := range bfs {
 					fl, hl := "absent", "absent"
@@ -347,9 +350,8 @@ var hostileQueries = func() []string {
 	q := []string{"", "0", "00", "a", "x", "yy", "00a", "Ab", "q", "nope"}
 	// one name per bucket of the two smallest fanouts (top 4 hash bits 0..15):
 	// whatever the bitfield claims, every bucket of the root is probed
-	for b := uint64(0); b < 16; b++ {
-		q = append(q, gen.NameWithHash(b<<60|0x0123456789ABCDE))
-	}
+	// (precomputed murmur3 inversions: nothing is searched for at start-up)
+	q = append(q, gen.BucketProbeNames[4]...)
 	return q
 }()
 
@@ -537,7 +539,7 @@ var c13Current sync.Map
 
 func runC13(r *core.Run) {
 	hostileInit()
-	r.Rule("bounded-exhaustive: (1) every byte string of length <= 4 (quick) / 5 (thorough) over a 24-symbol protobuf-aware alphabet to the three decoders (+ permissions/encode of every accepted value); (2) hostile DAGs: root payload menu (shards: 11 fanouts x 3 hash types x 7 bitfield shapes; files: 2 types x 5 file sizes x 7 block-size lists x 2 data; 8 other payloads) x link lists over (name x target) / (Tsize x target) menus incl. child shards of different fanout, missing blocks, lying sizes; every node operation on the lazy and preload reification under recover() with a step budget; distinct = distinct cases")
+	r.Rule("bounded-exhaustive: (1) every byte string of length <= 4 (quick) / 5 (thorough) over a 24-symbol protobuf-aware alphabet to the three decoders (+ permissions/encode of every accepted value); (2) hostile DAGs: root payload menu (shards: 11 fanouts x 3 hash types x 9 bitfield shapes; files: 2 types x 5 file sizes x 7 block-size lists x 2 data; 8 other payloads) x link lists over (name x target) / (Tsize x target) menus incl. child shards of different fanout, missing blocks, lying sizes; every node operation on the lazy and preload reification under recover() with a step budget; distinct = distinct cases")
 	r.Assume("DAG depth <= 3, <= 3 links per root; a watchdog reports a case that runs for more than 300 s of wall time")
 	maxLen := 4
 	if !r.Quick() {
